@@ -21,6 +21,7 @@ import vlib
 import loop
 import c08_fuzz
 import c08_hello
+import c08_resume
 
 sys.path.insert(0, os.path.join(vlib.ROOT, 'translator'))
 import units  # noqa: E402
@@ -90,6 +91,9 @@ def fuzz_stage(ctx, quick, pool):
     second = c08_fuzz.second_step_cases(ctx.rng, profiles, quick)
     second += c08_fuzz.cv_scheme_cases(ctx.rng, profiles)
     second += c08_fuzz.cert_cases(ctx.rng, profiles)
+    sig = c08_fuzz.sigalg_cases(ctx.rng, profiles, quick)
+    ctx.cov['sigalg_cross_product_cases'] = len(sig)
+    second += sig
     second += c08_fuzz.pha_cases(ctx.rng, profiles)
     alerts = c08_fuzz.alert_cases(ctx.rng, profiles, quick)
     ctx.cov['alert_value_cases'] = len(alerts)
@@ -178,7 +182,7 @@ def witness_hellos():
 
 def crash_key(exc):
     fn, line = c08_fuzz.innermost_tlslite_frame(exc)
-    return 'crash:%s:%s:%s' % (type(exc).__name__, fn, c08_fuzz._norm(line)), fn, line
+    return c08_fuzz.crash_key(exc), fn, line
 
 
 def witness_stage(ctx):
@@ -311,6 +315,28 @@ def run(ctx):
         # ---- the property itself on the implementation (direct oracle; independent of Coq)
         found |= fuzz_stage(ctx, quick, pool)
         found |= decompress_contract(ctx, quick)
+        # ---- observable resumability after a failure (three-connection histories)
+        t0 = time.time()
+        rcases = c08_resume.gen_cases(ctx.rng, quick)
+        rres = pool.map(c08_resume.worker, rcases, chunksize=2)
+        seen_r = set()
+        for r in rres:
+            c = r['case']
+            ctx.count('resume-after-failure', 1, [(c['kind'], c['role'], c['on'], c['fail'], r['status'])])
+            if r['status'] == 'harness-error':
+                ctx.violation('harness-error:resume', 'resumption history harness failed: ' + r['error'][-300:], {'case': c},
+                              found_input=False)
+            for key, text, enforced in r['problems']:
+                if not enforced:
+                    ctx.count('resume-after-failure(not-required)', 1, [key])
+                    continue
+                found = True
+                if key in seen_r:
+                    continue
+                seen_r.add(key)
+                ctx.violation(key, text, {'resume_case': c, 'second': r.get('second'), 'third': r.get('third'),
+                                          'how': 'harness/c08_resume.py run_resume_case(case); ./check C08 --replay <this file>'})
+        ctx.log('resume-after-failure: %d histories in %.1fs' % (len(rcases), time.time() - t0))
         # ---- crash models vs implementation
         model_ok = res['model_ok'] and tie_broken is None and os.path.exists(os.path.join(vlib.COQ, 'Gen', 'ChChecks.vo'))
         t0 = time.time()
@@ -385,7 +411,7 @@ def run(ctx):
         t0 = time.time()
         n_before = len(ctx.violations) + len(ctx.known_hits)
         try:
-            wt = c08_fuzz.with_watchdog(c08_work.run_stage, ctx, quick, _seconds=400 if quick else 7200)
+            wt = c08_fuzz.with_watchdog(c08_work.run_stage, ctx, quick, _seconds=600 if quick else 3600)     # CPU seconds of this process (coqc children do not count)
         except c08_fuzz.HangTimeout as e:
             sys.settrace(None)
             fn, line = c08_fuzz.hang_frame(e)
@@ -420,6 +446,10 @@ def replay(ctx, path):
         exc = c08_hello.run_server_exc(ch, st)
         print('handshakeServer outcome:', repr(exc))
         return 1 if exc is not None and loop.classify(('exc', exc))[0] == 'Other' else 0
+    if 'resume_case' in r:
+        o = c08_resume.run_resume_case(r['resume_case'])
+        print('status:', o['status'], 'second:', o.get('second'), 'third:', o.get('third'))
+        return 1 if o['problems'] else 0
     if 'second_client_hello_hex' in r:
         from tlslite.messages import RecordHeader3
         pair = loop.Pair()
